@@ -490,6 +490,9 @@ Proof.
   replace (L - tl - msz) with Lp by lia.
   rewrite (u64_small Lp) by lia. rewrite (u64_small (16 + hdr_cc pkt * 4)) by lia.
   destruct (Lp <? 16 + hdr_cc pkt * 4) eqn:Q1; [apply Z.ltb_lt in Q1; lia|]. apply t_bind_ret.
+  (* the whole extension ends in front of the trailer *)
+  cbn [andb]. rewrite (u64_small (hl + xtn_len pkt)) by lia.
+  destruct (Lp <? hl + xtn_len pkt) eqn:Q1b; [apply Z.ltb_lt in Q1b; lia|]. apply t_bind_ret.
   replace (L - 16 - msz) with (Lp - 16 + tl) by lia. rewrite (u64_small (Lp - 16 + tl)) by lia.
   set (el := Lp - 16 + tl) in *.
   destruct (el <? tl) eqn:Q2; [apply Z.ltb_lt in Q2; lia|]. apply t_bind_ret.
